@@ -256,10 +256,13 @@ impl Tracer {
             m.push(qi);
             // -0.0 and 0.0 are the same coordinate value for every purpose of the contract
             let bits = if x == 0.0 { 0u64 } else { x.to_bits() };
-            h = (h ^ bits).wrapping_mul(0x1000_0000_01b3);
-            h ^= h >> 29;
+            // splitmix-style avalanche of every coordinate's bit pattern
+            let mut z = bits.wrapping_add(0x9E37_79B9_7F4A_7C15).wrapping_add(h.rotate_left(17));
+            z = (z ^ (z >> 30)).wrapping_mul(0xBF58_476D_1CE4_E5B9);
+            z = (z ^ (z >> 27)).wrapping_mul(0x94D0_49BB_1331_11EB);
+            h = z ^ (z >> 31);
         }
-        (m, pert, dok, (h & 0x3fff_ffff) as i64)
+        (m, pert, dok, (h >> 34) as i64)
     }
 
     pub fn project_tds<U2, V2, const D: usize>(
